@@ -145,3 +145,13 @@ func TestVN_D9_ForgedCursor(t *testing.T) {
 		}
 	}
 }
+
+// D15: a lock request with a negative ttl is a client error over HTTP (binding min=0); over gRPC it must not
+// reach the kernel either (it would be stored as a lock whose lease ended before it began).
+func TestVN_D15_AcquireLockNegativeTtl(t *testing.T) {
+	k := &vnKernel{res: &t_api.Response{Kind: t_api.AcquireLock, AcquireLock: &t_api.AcquireLockResponse{Status: t_api.StatusCreated}}}
+	_, err := vnServer(k).AcquireLock(context.Background(), &pb.AcquireLockRequest{ResourceId: "r", ExecutionId: "e", ProcessId: "p", Ttl: -1})
+	if status.Code(err) != codes.InvalidArgument || k.calls != 0 {
+		t.Fatalf("negative ttl: want InvalidArgument without a kernel request, got err=%v kernel calls=%d", err, k.calls)
+	}
+}
